@@ -208,8 +208,8 @@ class Deps:
             if isinstance(n, ast.Call):
                 fn = n.func
                 lossy = False
-                if isinstance(fn, ast.Name) and fn.id in ("len", "sum", "min", "max", "sorted", "any", "all", "bool", "hash"):
-                    lossy = True
+                if isinstance(fn, ast.Name) and fn.id in ("len", "sum", "min", "max", "sorted", "any", "all", "bool", "hash", "set", "frozenset"):
+                    lossy = True          # forgets order / multiplicity / everything but one number
                 if isinstance(fn, ast.Attribute) and fn.attr in ("count", "keys", "index", "startswith"):
                     lossy = True
                 inner = set()
@@ -465,6 +465,71 @@ def _enclosing_tests(fnode, target):
     return out
 
 
+def _facts_at(fnode, target):
+    """tests known to hold (polarity True) or fail (False) whenever `target` executes: enclosing if-tests, and the negation of every earlier
+    `if T: ... return/raise` of an enclosing block (syntax-directed dominance)"""
+    facts = []
+
+    def ends(stmts):
+        return bool(stmts) and isinstance(stmts[-1], (ast.Return, ast.Raise, ast.Continue, ast.Break))
+
+    def walk(stmts, acc):
+        local = list(acc)
+        for st in stmts:
+            if st is target:
+                facts.extend(local)
+                return True
+            if isinstance(st, ast.If):
+                if walk(st.body, local + [(st.test, True)]) or walk(st.orelse, local + [(st.test, False)]):
+                    return True
+                if ends(st.body) and not st.orelse:
+                    local.append((st.test, False))
+                elif ends(st.orelse) and st.orelse and not ends(st.body):
+                    local.append((st.test, True))
+            elif isinstance(st, (ast.For, ast.While)):
+                if walk(st.body, local) or walk(st.orelse, local):
+                    return True
+            elif isinstance(st, ast.With):
+                if walk(st.body, local):
+                    return True
+            elif isinstance(st, ast.Try):
+                if walk(st.body, local) or any(walk(h.body, local) for h in st.handlers) or walk(st.orelse, local) or walk(st.finalbody, local):
+                    return True
+        return False
+    walk(fnode.body, [])
+    return facts
+
+
+def _atomic(test, pol, out):
+    if isinstance(test, ast.UnaryOp) and isinstance(test.op, ast.Not):
+        _atomic(test.operand, not pol, out)
+    elif isinstance(test, ast.BoolOp) and ((isinstance(test.op, ast.And) and pol) or (isinstance(test.op, ast.Or) and not pol)):
+        for v in test.values:
+            _atomic(v, pol, out)
+    else:
+        out.append((test, pol))
+
+
+def pinned_params(fnode, target, params):
+    """parameters that can have only one value when `target` executes (`len(p) == 0`, `p is None`, `p == <literal>`, `not p` all mean 'the
+    default / nothing supplied'): they are not inputs of what is stored there"""
+    atoms = []
+    for t, pol in _facts_at(fnode, target):
+        _atomic(t, pol, atoms)
+    pinned = set()
+    for t, pol in atoms:
+        if isinstance(t, ast.Compare) and len(t.ops) == 1:
+            l, op, r = t.left, t.ops[0], t.comparators[0]
+            if isinstance(l, ast.Call) and getattr(l.func, "id", None) == "len" and len(l.args) == 1 and isinstance(l.args[0], ast.Name) \
+                    and isinstance(r, ast.Constant) and r.value == 0 and ((isinstance(op, ast.Eq) and pol) or (isinstance(op, (ast.NotEq, ast.Gt)) and not pol)):
+                pinned.add(l.args[0].id)
+            if isinstance(l, ast.Name) and isinstance(r, ast.Constant) and ((isinstance(op, (ast.Eq, ast.Is)) and pol) or (isinstance(op, (ast.NotEq, ast.IsNot)) and not pol)):
+                pinned.add(l.id)
+        elif isinstance(t, ast.Name) and not pol:
+            pinned.add(t.id)            # `not p` holds: p is empty / None / 0
+    return pinned & set(params)
+
+
 def _inline_key(site, finfo):
     from .bind import inline_locals
     try:
@@ -505,6 +570,7 @@ def analyse(prog, E):
         if site.cls == "Sequence" and site.fnode.name == "deltaMax" and value_quantities(site, valdeps) is not None:
             # exact dependence of the two memo fields is known (C03): the flag only selects what is returned, it is not an input of either
             infl.discard("returnSeqDeltaMax")
+        infl -= pinned_params(site.fnode, site.store, infl)
         for name in sorted(infl):
             p = "param:" + name
             if p in keydeps:
